@@ -85,6 +85,15 @@ def single(cfg, crate, rep):
                     wfn_ = sorted(common.known_owners(crate, wfn_))[0]
                 rep.ob("C09.single", "%s|%s|%s|%s" % (cfg, fn, "+".join(sorted(pl)), node["kind"]), ok and wfn_ in allowed_writer,
                        "time leaf is produced by the shared helper chain", found=sorted(via), sp=node.get("sp"))
+    # ... and in no other way: a pre-encoded (raw) element must not be computed from a time field (a cached / replayed
+    # encoding escapes the form decision made for the field it is written for)
+    for fn in (CERT_FN, CRL_FN):
+        art = common.artefact(crate, fn)
+        for node, p, c, r in S.walk(art.tbs):
+            if node["t"] == "Raw" and "inner" not in node:
+                tf = sorted(x for x in places(node["v"]) if any(x == t_ or x.startswith(t_ + "?") for t_ in TIME_FIELDS))
+                if tf:
+                    rep.fail("C09.single", "%s|%s|raw-from-time-field|%s" % (cfg, fn, "+".join(tf)), "a time field reaches the output as pre-encoded bytes instead of through a UTCTime / GeneralizedTime leaf", found=core(node["v"]).r()[:160], sp=node.get("sp"))
     rep.ob("C09.single", "%s|fields" % cfg, seen == TIME_FIELDS, "every time-carrying field is encoded through the shared time helpers", expected=sorted(TIME_FIELDS), found=sorted(seen))
     rep.floor("C09.single", "time fields (%s)" % cfg, len(seen), 6)
 
